@@ -45,6 +45,7 @@ def expr_stream(rng: random.Random, tier: str, n_random: int, depth_q: int = 4, 
             g = gen.Gen(rng, names=names[: 1 + rnd % len(names)], kinds=kinds)
             out += gen.pair_patterns(g)
             out += gen.param_pairs(g)
+            out += gen.twin_patterns(g)
     maxd = depth_q if tier == "quick" else depth_t
     frags = [gen.RATIONAL, gen.RATIONAL + gen.ROOTS, kinds, kinds]
     for i in range(n_random):
@@ -61,8 +62,15 @@ def points_for(rng: random.Random, e, k: int, extra: float = 0.0) -> list[dict]:
     pts = []
     for j in range(k):
         grid = gen.GRID if j % 3 else [v for v in gen.GRID if v > 0] + [0.5, 2]
+        if rng.random() < 0.12:
+            # far from the usual magnitudes, still well inside double range: values next to a
+            # boundary that are *not* on it, large arguments
+            grid = gen.GRID + EXTREME
         pts.append(g.point(vs, grid=grid, extra=extra))
     return pts
+
+
+EXTREME = [1e-20, -1e-18, 3e-17, 1e-9, -1e-9, 1e9, 1e20, -1e20, 1e-200, 5e-17, 1e-15, 40.0, -40.0, 700.0]
 
 
 def make_eval_case(origin: str, e, p: dict) -> dict:
